@@ -50,7 +50,7 @@ def build_lean(pid):
     rc, out = sh(["lake", "build", "PS", "psdriver"], cwd=LEAN, timeout=3600)
     if rc != 0:
         return False, False, out
-    rc2, out2 = sh(["lake", "build", f"PS.Props.{pid}"], cwd=LEAN, timeout=3600)
+    rc2, out2 = sh(["lake", "build"] + [f"PS.Props.{f[:-5]}" for f in prop_files(pid)], cwd=LEAN, timeout=3600)
     return True, rc2 == 0, out + out2
 
 
@@ -101,13 +101,31 @@ def grep_forbidden():
     return hits
 
 
+def prop_files(pid):
+    """PS/Props/Cxx.lean and its parts PS/Props/Cxx_<Part>.lean"""
+    d = os.path.join(LEAN, "PS", "Props")
+    return sorted(f for f in os.listdir(d) if re.fullmatch(rf"{pid}(_\w+)?\.lean", f))
+
+
 def theorems_of(pid):
-    path = os.path.join(LEAN, "PS", "Props", f"{pid}.lean")
-    src = strip_comments(open(path).read())
-    ns = re.search(r"^namespace\s+(\S+)", src, re.M)
-    prefix = ns.group(1) + "." if ns else ""
-    names = re.findall(r"^\s*(?:protected\s+|private\s+)?theorem\s+(\S+)", src, re.M)
-    return [prefix + n for n in names if n.startswith(pid) or n.startswith("finding") or True]
+    names = []
+    for fn in prop_files(pid):
+        src = strip_comments(open(os.path.join(LEAN, "PS", "Props", fn)).read())
+        # track namespaces (simple stack)
+        stack = []
+        for line in src.split("\n"):
+            m = re.match(r"^\s*namespace\s+(\S+)", line)
+            if m:
+                stack.append(m.group(1))
+                continue
+            m = re.match(r"^\s*end\s+(\S+)", line)
+            if m and stack and stack[-1].split(".")[-1] == m.group(1).split(".")[-1]:
+                stack.pop()
+                continue
+            m = re.match(r"^\s*(?:@\[[^\]]*\]\s*)?(?:protected\s+|private\s+)?theorem\s+(\S+)", line)
+            if m:
+                names.append(".".join(stack + [m.group(1)]))
+    return names
 
 
 def audit(pid):
@@ -117,7 +135,8 @@ def audit(pid):
     os.makedirs(d, exist_ok=True)
     path = os.path.join(d, f"{pid}.lean")
     with open(path, "w") as f:
-        f.write(f"import PS.Props.{pid}\n")
+        for fn in prop_files(pid):
+            f.write(f"import PS.Props.{fn[:-5]}\n")
         for n in names:
             f.write(f"#print axioms {n}\n")
     rc, out = sh(["lake", "env", "lean", path], cwd=LEAN, timeout=3600)
@@ -364,7 +383,7 @@ def check_main(args):
     obligations = len(names)
     discharged = 0 if (not props_ok) else sum(1 for n in names if axioms.get(n) is not None and set(axioms[n]) <= ALLOWED_AXIOMS)
     if args.tier == "thorough" and props_ok:
-        rc, out = sh(["lake", "env", "leanchecker", f"PS.Props.{pid}"], cwd=LEAN, timeout=7200)
+        rc, out = sh(["lake", "env", "leanchecker"] + [f"PS.Props.{f[:-5]}" for f in prop_files(pid)], cwd=LEAN, timeout=7200)
         if rc != 0:
             proof_problems.append("leanchecker rejected PS.Props.%s: %s" % (pid, out[-800:]))
 
